@@ -89,6 +89,9 @@ type Rec struct {
 	Gate func(o *Op)
 	// TaskOf maps goroutine ids to task names (set by the scheduler).
 	TaskOf func(g int64) string
+	// GateAfter is called (without lock) after an operation came back from the inner backend, before its result is
+	// handed to the caller: a second scheduling point, for layers that do something with a result after reading it.
+	GateAfter func(o *Op)
 }
 
 // RecTx is Rec for a transactional inner backend.
@@ -162,6 +165,9 @@ func (r *Rec) finish(o *Op, err error) {
 		r.mu.Lock()
 		o.Err = err
 		r.mu.Unlock()
+	}
+	if g := r.GateAfter; g != nil {
+		g(o)
 	}
 }
 
